@@ -4,6 +4,7 @@ package main
 
 import (
 	"fmt"
+	"math"
 	"math/bits"
 )
 
@@ -766,6 +767,13 @@ func (c *Ctx) cmp(op Op, a, b *Term) *Term {
 			return c.True
 		}
 	}
+	// x/c < k  <=>  x < k*c   for constants c > 0, k > 0 (truncated division), when k*c does not overflow
+	if op == OBvSlt && b.IsConst() && a.Op == OBvSDiv && a.A[1].IsConst() {
+		cc, kk := sx(a.A[1].K, w), sx(b.K, w)
+		if cc > 0 && kk > 0 && kk < (int64(1)<<uint(w-2))/cc {
+			return c.cmp(OBvSlt, a.A[0], c.Const(w, uint64(kk*cc)))
+		}
+	}
 	// push comparisons with constants through ite-of-constants
 	if b.IsConst() && a.Op == OIte && a.A[1].IsConst() && a.A[2].IsConst() {
 		return c.Ite(a.A[0], c.cmp(op, a.A[1], b), c.cmp(op, a.A[2], b))
@@ -991,18 +999,77 @@ func (c *Ctx) Apply(name string, s Sort, args ...*Term) *Term {
 var FP64 = Sort{K: SFP}
 
 func (c *Ctx) FpFromBits(a *Term) *Term { return c.mk(OFpFromBits, FP64, 0, "", a) }
+
+func fpConst(t *Term) (float64, bool) {
+	if t.Op == OFpFromBits && t.A[0].IsConst() {
+		return math.Float64frombits(t.A[0].K), true
+	}
+	return 0, false
+}
+
+func (c *Ctx) fpOf(f float64) *Term { return c.FpFromBits(c.Const(64, math.Float64bits(f))) }
+
+// FP operations fold on constants with Go's float64 arithmetic (IEEE-754 binary64, round to nearest
+// even — the semantics the SMT encoding uses).
 func (c *Ctx) FpBin(op Op, a, b *Term) *Term {
+	if x, ok := fpConst(a); ok {
+		if y, ok := fpConst(b); ok {
+			switch op {
+			case OFpAdd:
+				return c.fpOf(x + y)
+			case OFpSub:
+				return c.fpOf(x - y)
+			case OFpMul:
+				return c.fpOf(x * y)
+			case OFpDiv:
+				return c.fpOf(x / y)
+			}
+		}
+	}
 	return c.mk(op, FP64, 0, "", a, b)
 }
-func (c *Ctx) FpCmp(op Op, a, b *Term) *Term { return c.mk(op, BoolSort, 0, "", a, b) }
-func (c *Ctx) FpNeg(a *Term) *Term          { return c.mk(OFpNeg, FP64, 0, "", a) }
+func (c *Ctx) FpCmp(op Op, a, b *Term) *Term {
+	if x, ok := fpConst(a); ok {
+		if y, ok := fpConst(b); ok {
+			switch op {
+			case OFpLt:
+				return c.Bool(x < y)
+			case OFpLe:
+				return c.Bool(x <= y)
+			case OFpEq:
+				return c.Bool(x == y)
+			}
+		}
+	}
+	return c.mk(op, BoolSort, 0, "", a, b)
+}
+func (c *Ctx) FpNeg(a *Term) *Term {
+	if x, ok := fpConst(a); ok {
+		return c.fpOf(-x)
+	}
+	return c.mk(OFpNeg, FP64, 0, "", a)
+}
 func (c *Ctx) FpFromInt(a *Term, signed bool) *Term {
+	if a.IsConst() {
+		if signed {
+			return c.fpOf(float64(a.SignedVal()))
+		}
+		return c.fpOf(float64(a.K))
+	}
 	if signed {
 		return c.mk(OFpFromSInt, FP64, 0, "", a)
 	}
 	return c.mk(OFpFromUInt, FP64, 0, "", a)
 }
 func (c *Ctx) FpToInt(a *Term, w int, signed bool) *Term {
+	if x, ok := fpConst(a); ok && !math.IsNaN(x) && math.Abs(x) < 9e18 {
+		if signed {
+			return c.Const(w, uint64(int64(x)))
+		}
+		if x >= 0 {
+			return c.Const(w, uint64(x))
+		}
+	}
 	if signed {
 		return c.mk(OFpToSInt, BV(w), uint64(w), "", a)
 	}
